@@ -137,6 +137,42 @@ static void prop_tentative(Tape &t, Ctx &c) {
     if (k > 0 && ts.max_orth > 0.1) c.label("orth-err>0.1tol");
 }
 
+// ------------------------------------------------------------------ tentative_prolongation() called directly on an arbitrary partition
+// (public function; aggregates may be smaller than the number of null-space vectors: regression for the QR::R over-read, fix 77a4205)
+static void prop_tentative_direct(Tape &t, Ctx &c) {
+    int b = t.chance(3, 4) ? 1 : 2;
+    int k = static_cast<int>(t.u(1, 4));
+    ptrdiff_t np = static_cast<ptrdiff_t>(t.u(1, t.b() ? 6 : 40));          // grid nodes
+    int nba = static_cast<int>(t.u(1, std::max<ptrdiff_t>(1, np)));         // aggregates (many small ones when nba ~ np)
+    std::vector<ptrdiff_t> pid(np);
+    // every aggregate gets one node first (non-empty), the rest go to a tape-chosen aggregate or stay outside (-1 / -2)
+    std::vector<ptrdiff_t> order(np); for (ptrdiff_t i = 0; i < np; ++i) order[i] = i;
+    for (ptrdiff_t a = np; a > 1; --a) std::swap(order[a - 1], order[t.pick(a)]);
+    for (ptrdiff_t i = 0; i < np; ++i) {
+        if (i < nba) pid[order[i]] = i;
+        else { int w = static_cast<int>(t.u(0, nba + 1)); pid[order[i]] = w < nba ? w : (w == nba ? -1 : -2); }
+    }
+    ptrdiff_t n = np * b; size_t count = static_cast<size_t>(nba) * b;
+    std::vector<ptrdiff_t> id(n);
+    for (ptrdiff_t ip = 0; ip < np; ++ip) for (int q = 0; q < b; ++q) id[ip * b + q] = pid[ip] >= 0 ? pid[ip] * b + q : pid[ip] * b + q; // negative stays negative
+    for (ptrdiff_t i = 0; i < n; ++i) if (id[i] >= 0 && pid[i / b] < 0) id[i] = -1;
+    std::string bkind; std::vector<double> B = gen_nullspace(t, n, k, bkind);
+    std::vector<ptrdiff_t> sz(nba, 0); for (ptrdiff_t ip = 0; ip < np; ++ip) if (pid[ip] >= 0) sz[pid[ip]] += b;
+    ptrdiff_t dmin = n, dmax = 0; long shortc = 0; for (int a = 0; a < nba; ++a) { dmin = std::min(dmin, sz[a]); dmax = std::max(dmax, sz[a]); if (sz[a] < k) ++shortc; }
+    c.desc << "tentative_prolongation(direct) n=" << n << " block_size=" << b << " aggregates=" << nba << " rows per aggregate " << dmin << ".." << dmax << " nullspace.cols=" << k << " B:" << bkind << " threads=" << c.threads << " id={";
+    if (n <= 16) for (ptrdiff_t i = 0; i < n; ++i) c.desc << (i ? " " : "") << id[i];
+    c.desc << "}";
+    c.nontrivial = k >= 2 && nba >= 1;
+    c.label("nullspace=" + std::to_string(k)); c.label("b=" + std::to_string(b)); c.label(shortc ? "aggregate-smaller-than-nullspace" : "all-aggregates>=nullspace");
+    if (dmin == 1) c.label("single-row-aggregate");
+    co::nullspace_params ns; ns.cols = k; ns.B = B;
+    auto P = co::tentative_prolongation<Mat>(static_cast<size_t>(n), count, id, ns, b);
+    require_wellformed(*P, "tentative_prolongation");
+    VF_REQUIRE(ns.cols == k, "nullspace.cols changed");
+    TentStats ts = check_tentative(from_crs(*P), id, count, b, k, B, ns.B, "tentative_prolongation(direct)", true);
+    VF_REQUIRE(ts.short_aggregates == shortc, "harness: short aggregate count");
+}
+
 // ------------------------------------------------------------------ lifting
 static void lifting_checks(Ctx &c, const Csr<double> &A, const cm::MatInfo &info, int b, bool keep_zeros, float eps, int which, float relax, bool est) {
     Csr<double> K = cm::kron_identity(A, b, keep_zeros);
@@ -409,11 +445,12 @@ static std::vector<Prop> props() {
     // the *_mt registrations run the same properties under 4 OpenMP threads (per-thread scratch vectors / markers in
     // pointwise_aggregates, tentative_prolongation, smoothed_aggregation, ruge_stuben); fewer cases, the algebra is the same
     return {
-        Prop("aggregates", prop_aggregates, 2500, 40000, 100, 60, {1}, 2, 8),
-        Prop("tentative", prop_tentative, 2500, 40000, 100, 80, {1}, 2, 8),
-        Prop("lifting", prop_lifting, 2000, 30000, 100, 40, {1}, 2, 8),
-        Prop("smoothed_aggregation", prop_sa, 2500, 40000, 100, 80, {1}, 2, 8),
-        Prop("ruge_stuben", prop_rs, 3000, 50000, 100, 40, {1}, 2, 8),
+        Prop("aggregates", prop_aggregates, 5000, 50000, 100, 60, {1}, 2, 8),
+        Prop("tentative", prop_tentative, 5000, 50000, 100, 80, {1}, 2, 8),
+        Prop("tentative_direct", prop_tentative_direct, 5000, 50000, 100, 20, {1}, 2, 8),
+        Prop("lifting", prop_lifting, 4000, 40000, 100, 40, {1}, 2, 8),
+        Prop("smoothed_aggregation", prop_sa, 5000, 50000, 100, 80, {1}, 2, 8),
+        Prop("ruge_stuben", prop_rs, 5000, 60000, 100, 40, {1}, 2, 8),
         Prop("aggregates_mt", prop_aggregates, 400, 8000, 100, 60, {4}, 1, 4),
         Prop("tentative_mt", prop_tentative, 400, 8000, 100, 80, {4}, 1, 4),
         Prop("lifting_mt", prop_lifting, 400, 8000, 100, 40, {4}, 1, 4),
